@@ -12,7 +12,7 @@ EXPLANATION = (
     "48 cut points, 64-bit vectors with no-overflow side obligations); Salsa20/8, DES key expansion, scrypt parameter "
     "validation, MD4's buffering (update: the stream reaches the compression function in order in 64-byte blocks, remainder "
     "kept, block count advanced), copy and padding (digest), and compile_hmac == RFC 2104 over an abstract hash (bytes and text keys) "
-    "with its pad tables are verified from their real source; DES rounds, bcrypt core, ROMix, PBKDF1/2 and "
+    "with its pad tables, and PBKDF1 == H^rounds(P || S) truncated (RFC 8018 5.1), are verified from their real source; DES rounds, bcrypt core, ROMix, PBKDF2 (delegated to hashlib) and "
     "SASLprep are covered by the bounded stand-in against independent references."
 )
 ASSUMPTIONS = [
@@ -426,6 +426,38 @@ CONTRACTS.append(Contract(
 ))
 
 
+# ---- PBKDF1 (RFC 8018 5.1): T_1 = H(P || S), T_i = H(T_{i-1}), DK = T_c[0:dkLen] --------------------------------------
+ITER = z3.Function("H_iterated", z3.StringSort(), z3.IntSort(), z3.StringSort())
+
+
+def _iter(it, x, n):
+    r = ITER(x, n)
+    it.run.assume(r == z3.If(n <= 0, x, Hf(ITER(x, n - 1))))
+    it.run.assume(z3.Implies(n >= 1, z3.Length(r) == it.run.ghost["D"].e))
+    return r
+
+
+def _iter_spec(it, args, kwargs):
+    from pyvc.values import SStr
+    return SStr(_iter(it, it.to_z3(args[0]), it.to_z3(args[1], "int")), "bytes")
+
+
+_B = __import__("pyvc.contract", fromlist=["Bytes"]).Bytes
+_U = __import__("pyvc.contract", fromlist=["Union"]).Union
+_N = __import__("pyvc.contract", fromlist=["NoneT"]).NoneT
+CONTRACTS.append(Contract(
+    "pbkdf1", f"{DG}::pbkdf1",
+    params={"digest": Const("sha1"), "secret": _B(), "salt": _B(), "rounds": Int(), "keylen": _U(_N(), Int())},
+    setup=_hmac_setup,
+    specs={"iterate": _iter_spec},
+    loops={"pbkdf1#0": Loop(invariant=["block == iterate(secret + salt, __i0__)", "0 <= __i0__"], modifies=["block", "_"])},
+    raises_iff={"ValueError": "rounds < 1 or (keylen is not None and (keylen < 0 or keylen > digest_size))"},
+    ensures=[("DK == H^rounds(secret || salt) truncated to keylen (the digest size when keylen is None)",
+              "result == iterate(secret + salt, rounds)[0:(digest_size if keylen is None else keylen)]")],
+    descr="abstract hash, every secret / salt, every rounds, every keylen (incl. refusals)",
+))
+
+
 def _pad_tables():
     t36 = extract_const(DG, "_TRANS_36")
     t5c = extract_const(DG, "_TRANS_5C")
@@ -470,4 +502,7 @@ MUTANTS = [
     ("md4.update: an exact final block stays in the buffer", M, "            if next <= end:\n                self._process(content[idx:next])", "            if next < end:\n                self._process(content[idx:next])", "refute", "md4.update"),
     ("md4.update: block count not advanced", M, "                self._process(content[idx:next])\n                self._count += 1\n", "                self._process(content[idx:next])\n", "refute", "md4.update"),
     ("md4.update: buffered bytes appended after the new content", M, "            content = buf + content", "            content = content + buf", "refute", "md4.update"),
+    ("pbkdf1: one round short", DG, "    for _ in range(rounds):\n        block = const(block).digest()", "    for _ in range(rounds - 1):\n        block = const(block).digest()", "refute", "pbkdf1"),
+    ("pbkdf1: zero rounds accepted", DG, "    if rounds < 1:\n        raise ValueError(\"rounds must be at least 1\")", "    if rounds < 0:\n        raise ValueError(\"rounds must be at least 1\")", "refute", "pbkdf1"),
+    ("pbkdf1: salt before secret", DG, "    block = secret + salt\n", "    block = salt + secret\n", "refute", "pbkdf1"),
 ]
